@@ -255,16 +255,19 @@ def HExpr.unquote : HExpr → HExpr
   | .quoted e => e.unquote
   | e => e
 
-/-- `resolve_hint_pep484_ref_str_decor_curr` for one string hint -/
-def resolveStr (s : St) (fr : FuncRec) (cs : List (Name × Nat)) (e : HExpr) : Except Err H :=
-  let nested := !(cs.isEmpty && fr.lex.isEmpty)
+/-- `hint in func_basenames_scoped`: the WHOLE string is a bare name that is a component of the qualified name of
+    a nested callable decorated by itself — then a frameless proxy is returned without building the scope -/
+def shortcut (s : St) (fr : FuncRec) (cs : List (Name × Nat)) (e : HExpr) : Option Name :=
   match e.unquote with
   | .name n =>
-    -- `hint in func_basenames_scoped`: a bare name that is a component of the qualified name
-    if cs.isEmpty && nested && (lexNames s fr.lex ++ [fr.name]).contains n then
-      .ok (.fwd { owner := fr.fid, path := [n], frame := none })
-    else evalH s.heap (fwLk s fr cs) true e
-  | _ => evalH s.heap (fwLk s fr cs) true e
+    if cs.isEmpty && !(cs.isEmpty && fr.lex.isEmpty) && (lexNames s fr.lex ++ [fr.name]).contains n then some n else none
+  | _ => none
+
+/-- `resolve_hint_pep484_ref_str_decor_curr` for one string hint -/
+def resolveStr (s : St) (fr : FuncRec) (cs : List (Name × Nat)) (e : HExpr) : Except Err H :=
+  match shortcut s fr cs e with
+  | some n => .ok (.fwd { owner := fr.fid, path := [n], frame := none })
+  | none => evalH s.heap (fwLk s fr cs) true e
 
 /-- what the decorator stores for the annotation -/
 def decorVal (s : St) (fr : FuncRec) (cs : List (Name × Nat)) : Except Err H :=
@@ -464,5 +467,113 @@ def run (s : St) : List Ev → St × List Out
 
 def St.init (builtins : Scope) (heap : Heap) : St :=
   { builtins, globals := [], acts := [], stack := [], heap, funcs := [], cache := [] }
+
+/-! ### the three ways of writing an annotation, and syntactic helpers used by the property statements -/
+
+/-- names occurring in an expression (inside string literals too) -/
+def HExpr.names : HExpr → List Name
+  | .name n => [n]
+  | .attr e _ => e.names
+  | .sub e es => e.names ++ namesL es
+  | .bor a b => a.names ++ b.names
+  | .lit _ => []
+  | .quoted e => e.names
+where
+  namesL : List HExpr → List Name
+  | [] => []
+  | e :: es => e.names ++ namesL es
+
+/-- no string literal inside -/
+def HExpr.plain : HExpr → Bool
+  | .name _ => true
+  | .attr e _ => e.plain
+  | .sub e es => e.plain && plainL es
+  | .bor a b => a.plain && b.plain
+  | .lit _ => true
+  | .quoted _ => false
+where
+  plainL : List HExpr → Bool
+  | [] => true
+  | e :: es => e.plain && plainL es
+
+/-- no `|` (a quoted operand of `|` is a TypeError, so the leaf-quoting variant is only defined without it) -/
+def HExpr.borFree : HExpr → Bool
+  | .name _ => true
+  | .attr e _ => e.borFree
+  | .sub e es => e.borFree && borFreeL es
+  | .bor _ _ => false
+  | .lit _ => true
+  | .quoted e => e.borFree
+where
+  borFreeL : List HExpr → Bool
+  | [] => true
+  | e :: es => e.borFree && borFreeL es
+
+/-- the variant "strings only at the names": every name leaf selected by `q` becomes a string literal -/
+def quoteLeaves (q : Name → Bool) : HExpr → HExpr
+  | .name n => if q n then .quoted (.name n) else .name n
+  | .attr e n => .attr e n                     -- attribute chains stay evaluated
+  | .sub e es => .sub (quoteLeaves q e) (quoteLeavesL q es)
+  | .bor a b => .bor (quoteLeaves q a) (quoteLeaves q b)
+  | .lit l => .lit l
+  | .quoted e => .quoted e
+where
+  quoteLeavesL (q : Name → Bool) : List HExpr → List HExpr
+  | [] => []
+  | e :: es => quoteLeaves q e :: quoteLeavesL q es
+
+/-- no proxy, no unresolved string inside -/
+def H.closed : H → Bool
+  | .obj _ => true
+  | .fwd _ => false
+  | .str _ => false
+  | .sub h args => h.closed && closedL args
+  | .bor a b => a.closed && b.closed
+  | .lit _ => true
+where
+  closedL : List H → Bool
+  | [] => true
+  | h :: hs => h.closed && closedL hs
+
+/-- `RH` without the "reached through a proxy" markers -/
+def RH.erase : RH → RH
+  | .via h => h.erase
+  | .sub h args => .sub h.erase (eraseL args)
+  | .bor a b => .bor a.erase b.erase
+  | r => r
+where
+  eraseL : List RH → List RH
+  | [] => []
+  | r :: rs => r.erase :: eraseL rs
+
+/-- the proxy state machine WITHOUT its cache: what a first resolution yields in this state -/
+def resolveFresh (s : St) (p : Proxy) : Except Err Ref :=
+  match modAttr s p.path with
+  | some v => .ok (.val v)
+  | none =>
+    match p.frame with
+    | none => .error (.fwdref p.path)
+    | some c =>
+      match findFrameCode s c s.stack with
+      | some fr =>
+        match fr.locals.get? (dotted p.path) with
+        | some v => .ok (.val v)
+        | none => .error (.fwdref p.path)
+      | none => .ok (.fake (dotted p.path))
+
+/-- `force` without the cache -/
+def forceFresh (s : St) : H → RH
+  | .obj id => .obj id
+  | .fwd p => match resolveFresh s p with
+    | .ok r => refRH r
+    | .error _ => .unres p.path
+  | .str e => .str e
+  | .sub h args => .sub (forceFresh s h) (forceFreshL s args)
+  | .bor a b => .bor (forceFresh s a) (forceFresh s b)
+  | .lit l => .lit l
+where
+  forceFreshL (s : St) : List H → List RH
+  | [] => []
+  | h :: hs => forceFresh s h :: forceFreshL s hs
 
 end BearVerif.Fwd
